@@ -63,4 +63,13 @@ C20_Call_Failed(c) ==
     (IF c.len = AbsV(c.rs - c.re) - AbsV(c.qs - c.qe) THEN {} ELSE {"length_is_reference_gap_minus_query_gap"})
     \cup (IF (c.type = "insertion") <=> (c.len < 0) THEN {} ELSE {"insertion_iff_length_negative"})
     \cup (IF c.type \in {"insertion", "deletion"} THEN {} ELSE {"type_is_insertion_or_deletion"})
+\* end to end (sv/molecule_indels.py on COMA's own output files): the coordinates of an un-merged call are those of two
+\* CONSECUTIVE aligned pairs of the joined record of that query ("the two flanking aligned labels")
+C20_Flank_Failed(c, pairs, refx, qryx) ==
+    IF \E i \in 1..(Len(pairs) - 1) :
+          /\ pairs[i][1] \in 1..Len(refx) /\ pairs[i+1][1] \in 1..Len(refx)
+          /\ pairs[i][2] \in 1..Len(qryx) /\ pairs[i+1][2] \in 1..Len(qryx)
+          /\ refx[pairs[i][1]] = c.rs /\ refx[pairs[i+1][1]] = c.re
+          /\ qryx[pairs[i][2]] = c.qs /\ qryx[pairs[i+1][2]] = c.qe
+    THEN {} ELSE {"coordinates_are_those_of_two_flanking_aligned_labels"}
 =============================================================================
